@@ -52,4 +52,16 @@ def wfAreas : Bool → List Nat → Bool
     decide (a < b) &&
       (if b - a ≤ 1 then !first && wfAreas true (b :: rest) else wfAreas false (b :: rest))
 
+/-- CF 8.3.9, two subsampled dimensions: the value at vertex `(g0, g1)` of the vertex grid
+inside the interpolation subarea whose vertex grid runs from `(v0, v1)` to
+`(b0 + 1, b1 + 1)` and whose four bounds tie points are `ua` (at `(v0, v1)`), `ub` (at
+`(v0, b1 + 1)`), `uc` (at `(b0 + 1, v1)`), `ud` (at `(b0 + 1, b1 + 1)`). -/
+def vertexValue (ua ub uc ud : Rat) (v0 b0 v1 b1 g0 g1 : Nat) : Rat :=
+  fbl ua ub uc ud (sParam v0 (b0 + 1) g0) (sParam v1 (b1 + 1) g1)
+
+/-- CF 7.1 / 8.3.9: the four bounds of cell `(p0, p1)` are the vertices `(p0, p1)`,
+`(p0, p1 + 1)`, `(p0 + 1, p1 + 1)`, `(p0 + 1, p1)` of the vertex grid, in this order. -/
+def cellVertices (V : Nat → Nat → Rat) (p0 p1 : Nat) : List Rat :=
+  [V p0 p1, V p0 (p1 + 1), V (p0 + 1) (p1 + 1), V (p0 + 1) p1]
+
 end Cfdm.Spec.AppendixJ
